@@ -533,10 +533,12 @@ theorem C10_histories_with_failures (ext : Ext) (fields : List Field) (r0 : B) (
   exact C01.C01_build_decode' ext fields _ _ hschema hcov hrows hnar' h1
 
 /-- **C03 along histories with failing operations**: every build that succeeds returns well-formed arrays of the declared
-fields (`Spec.WF`), one per field, each of exactly as many rows as were added successfully since the previous successful
-build.  Hypotheses: those of `C01.C03_wf'`, as in `C10_builds_wf`. -/
+fields (the tightened `Spec.WF`: structurally valid AND of exactly the field's data type), one per field, each of exactly as
+many rows as were added successfully since the previous successful build.  Hypotheses: those of `C01.C03_wf'` (incl.
+`hplain`: no metadata on a Map's entries field, known finding C03-map-entries-metadata), as in `C10_builds_wf`. -/
 theorem C10_builds_wf_with_failures (ext : Ext) (fields : List Field) (r0 : B) (h0 : newRoot fields = .ok r0)
     (hschema : ∀ f ∈ fields, Lemmas.C03.SchemaOKF f)
+    (hplain : ∀ f ∈ fields, Lemmas.C03.PlainF f)
     (hsafe : Safe r0 ∨ fields.all Build.coveredF = true) (hext : Lemmas.C03.ExtOK ext)
     (ops : List Op) (hrows : OpsOK Lemmas.C03.SValOK ops)
     (i : Nat) (arrs : List Arr) (hop : ops[i]? = some .build)
@@ -545,7 +547,7 @@ theorem C10_builds_wf_with_failures (ext : Ext) (fields : List Field) (r0 : B) (
     ∀ (j : Nat) (f : Field) (a : Arr), fields[j]? = some f → arrs[j]? = some a →
       WF f a = true ∧ (decodeAll a).length = (trailing [] (ops.take i)).length := by
   have h1 := (build_ok_oneShot ext fields r0 h0 ops i arrs hop ho).1
-  exact Props.C01.C03_wf' ext fields _ _ hschema
+  exact Props.C01.C03_wf' ext fields _ _ hschema hplain
     (hsafe.imp (fun hs root0 hr => by rw [h0] at hr; cases hr; exact hs) id) hext
     (mem_trailing Lemmas.C03.SValOK _ [] (by simp) (OpsOK_take hrows i)) h1
 
